@@ -491,7 +491,9 @@ func doCall(op *Op, e *expr.Expression, canon func(func() string) string) (strin
 	case KParse:
 		var x *expr.Expression
 		var err error
-		if op.Field != "" {
+		if oe := optsFor(op); oe != nil {
+			x, err = oe.parse(op.Query)
+		} else if op.Field != "" {
 			x, err = lucene.Parse(op.Query, lucene.WithDefaultField(op.Field))
 		} else {
 			x, err = lucene.Parse(op.Query)
@@ -512,7 +514,9 @@ func doCall(op *Op, e *expr.Expression, canon func(func() string) string) (strin
 	case KToPG:
 		var s string
 		var err error
-		if op.Field != "" {
+		if oe := optsFor(op); oe != nil {
+			s, err = oe.topg(op.Query)
+		} else if op.Field != "" {
 			s, err = lucene.ToPostgres(op.Query, lucene.WithDefaultField(op.Field))
 		} else {
 			s, err = lucene.ToPostgres(op.Query)
@@ -525,7 +529,9 @@ func doCall(op *Op, e *expr.Expression, canon func(func() string) string) (strin
 		var s string
 		var ps []any
 		var err error
-		if op.Field != "" {
+		if oe := optsFor(op); oe != nil {
+			s, ps, err = oe.toparam(op.Query)
+		} else if op.Field != "" {
 			s, ps, err = lucene.ToParameterizedPostgres(op.Query, lucene.WithDefaultField(op.Field))
 		} else {
 			s, ps, err = lucene.ToParameterizedPostgres(op.Query)
